@@ -510,6 +510,9 @@ func (p *ProjectRunner) runningProcessesReverseDependencies() map[string]map[str
 					dep := make(map[string]*Process)
 					dep[process.getName()] = process
 					reverseDependencies[runningProc.getName()] = dep
+				} else {
+					// every dependent has to be waited for, not only the first one found
+					reverseDependencies[runningProc.getName()][process.getName()] = process
 				}
 			} else {
 				continue
